@@ -1,1 +1,445 @@
-pub fn placeholder() {}
+//! ilgen -- Gallina printers for falcon IL objects (matching coq/theories/IL/{Expr,Func,Loc}.v) and a
+//! random generator of IL functions built through the public `il` API.
+//! Owned by the integrator; agents may append strictly new items at the end of the file.
+use crate::*;
+use falcon::il::{
+    self, Block, Constant, ControlFlowGraph, Edge, Expression, Function, Instruction, Intrinsic,
+    Operation, PhiNode, Program, Scalar,
+};
+use std::collections::BTreeMap;
+
+// ---------------------------------------------------------------- name interning
+/// scalar / mnemonic names -> N ids, by first occurrence (deterministic for a deterministic case)
+#[derive(Default, Clone)]
+pub struct Interner {
+    pub map: BTreeMap<String, u64>,
+    pub names: Vec<String>,
+}
+impl Interner {
+    pub fn new() -> Interner {
+        Interner::default()
+    }
+    pub fn id(&mut self, name: &str) -> u64 {
+        if let Some(i) = self.map.get(name) {
+            return *i;
+        }
+        let i = self.names.len() as u64;
+        self.map.insert(name.to_string(), i);
+        self.names.push(name.to_string());
+        i
+    }
+}
+
+// ---------------------------------------------------------------- printers
+pub fn coq_const(c: &Constant) -> String {
+    format!("(mkc {} {})", c.bits(), z_big(c.value()))
+}
+pub fn coq_scalar(s: &Scalar, it: &mut Interner) -> String {
+    format!(
+        "(mks {} {} {})",
+        n_lit(it.id(s.name())),
+        s.bits(),
+        coq_opt(s.ssa().map(|v| n_lit(v as u64)))
+    )
+}
+pub fn coq_expr(e: &Expression, it: &mut Interner) -> String {
+    use Expression::*;
+    let mut bin = |o: &str, l: &Expression, r: &Expression, it: &mut Interner| {
+        format!("(EBin {} {} {})", o, coq_expr(l, it), coq_expr(r, it))
+    };
+    match e {
+        Scalar(s) => format!("(EScalar {})", coq_scalar(s, it)),
+        Constant(c) => format!("(EConst {})", coq_const(c)),
+        Add(l, r) => bin("Add", l, r, it),
+        Sub(l, r) => bin("Sub", l, r, it),
+        Mul(l, r) => bin("Mul", l, r, it),
+        Divu(l, r) => bin("Divu", l, r, it),
+        Modu(l, r) => bin("Modu", l, r, it),
+        Divs(l, r) => bin("Divs", l, r, it),
+        Mods(l, r) => bin("Mods", l, r, it),
+        And(l, r) => bin("And", l, r, it),
+        Or(l, r) => bin("Or", l, r, it),
+        Xor(l, r) => bin("Xor", l, r, it),
+        Shl(l, r) => bin("Shl", l, r, it),
+        Shr(l, r) => bin("Shr", l, r, it),
+        AShr(l, r) => bin("AShr", l, r, it),
+        Cmpeq(l, r) => bin("Cmpeq", l, r, it),
+        Cmpneq(l, r) => bin("Cmpneq", l, r, it),
+        Cmplts(l, r) => bin("Cmplts", l, r, it),
+        Cmpltu(l, r) => bin("Cmpltu", l, r, it),
+        Zext(b, x) => format!("(EExt Zext {} {})", b, coq_expr(x, it)),
+        Sext(b, x) => format!("(EExt Sext {} {})", b, coq_expr(x, it)),
+        Trun(b, x) => format!("(EExt Trun {} {})", b, coq_expr(x, it)),
+        Ite(c, t, f) => format!("(EIte {} {} {})", coq_expr(c, it), coq_expr(t, it), coq_expr(f, it)),
+    }
+}
+pub fn coq_intrinsic(i: &Intrinsic, it: &mut Interner) -> String {
+    let m = it.id(&format!("intrinsic:{}", i.mnemonic()));
+    let args = coq_list(i.arguments().iter().map(|e| coq_expr(e, it)).collect::<Vec<_>>());
+    let wr = coq_opt(i.written_expressions().map(|v| coq_list(v.iter().map(|e| coq_expr(e, it)).collect::<Vec<_>>())));
+    let rd = coq_opt(i.read_expressions().map(|v| coq_list(v.iter().map(|e| coq_expr(e, it)).collect::<Vec<_>>())));
+    format!("(mkintr {} {} {} {})", n_lit(m), args, wr, rd)
+}
+pub fn coq_operation(o: &Operation, it: &mut Interner) -> String {
+    match o {
+        Operation::Assign { dst, src } => format!("(OAssign {} {})", coq_scalar(dst, it), coq_expr(src, it)),
+        Operation::Store { index, src } => format!("(OStore {} {})", coq_expr(index, it), coq_expr(src, it)),
+        Operation::Load { dst, index } => format!("(OLoad {} {})", coq_scalar(dst, it), coq_expr(index, it)),
+        Operation::Branch { target } => format!("(OBranch {})", coq_expr(target, it)),
+        Operation::Intrinsic { intrinsic } => format!("(OIntrinsic {})", coq_intrinsic(intrinsic, it)),
+        Operation::Nop { placeholder } => format!("(ONop {})", coq_opt(placeholder.as_ref().map(|p| coq_operation(p, it)))),
+    }
+}
+pub fn coq_optz(o: Option<u64>) -> String {
+    coq_opt(o.map(|v| format!("{}", v)))
+}
+pub fn coq_instruction(i: &Instruction, it: &mut Interner) -> String {
+    format!("(mkinstr {} {} {})", i.index(), coq_operation(i.operation(), it), coq_optz(i.address()))
+}
+/// PhiNode has no iterator over `incoming`; probe the given candidate block indices (ascending).
+pub fn coq_phi(p: &PhiNode, block_indices: &[usize], it: &mut Interner) -> String {
+    let inc: Vec<String> = block_indices
+        .iter()
+        .filter_map(|b| p.incoming_scalar(*b).map(|s| format!("({}, {})", b, coq_scalar(s, it))))
+        .collect();
+    format!(
+        "(mkphi {} {} {})",
+        coq_list(inc),
+        coq_opt(p.entry_scalar().map(|s| coq_scalar(s, it))),
+        coq_scalar(p.out(), it)
+    )
+}
+/// `b_next` (next_instruction_index) is private: it is recovered as (max index + 1) unless the caller
+/// knows better and passes `next`.
+pub fn coq_block(b: &Block, next: Option<usize>, all_blocks: &[usize], it: &mut Interner) -> String {
+    let nx = next.unwrap_or_else(|| b.instructions().iter().map(|i| i.index() + 1).max().unwrap_or(0));
+    format!(
+        "(mkblock {} {} {} {})",
+        b.index(),
+        nx,
+        coq_list(b.instructions().iter().map(|i| coq_instruction(i, it)).collect::<Vec<_>>()),
+        coq_list(b.phi_nodes().iter().map(|p| coq_phi(p, all_blocks, it)).collect::<Vec<_>>())
+    )
+}
+pub fn coq_edge(e: &Edge, it: &mut Interner) -> String {
+    format!("(mkedge {} {} {})", e.head(), e.tail(), coq_opt(e.condition().map(|c| coq_expr(c, it))))
+}
+/// `g_next_index` is private too: recovered as (max block index + 1) unless given.
+pub fn coq_cfg(g: &ControlFlowGraph, next_index: Option<usize>, it: &mut Interner) -> String {
+    let idx: Vec<usize> = g.blocks().iter().map(|b| b.index()).collect();
+    let nx = next_index.unwrap_or_else(|| idx.iter().map(|i| i + 1).max().unwrap_or(0));
+    format!(
+        "(mkcfg {} {} {} {} {})",
+        coq_list(g.blocks().iter().map(|b| coq_block(b, None, &idx, it)).collect::<Vec<_>>()),
+        coq_list(g.edges().iter().map(|e| coq_edge(e, it)).collect::<Vec<_>>()),
+        nx,
+        coq_optz(g.entry().map(|v| v as u64)),
+        coq_optz(g.exit().map(|v| v as u64))
+    )
+}
+pub fn coq_function(f: &Function, it: &mut Interner) -> String {
+    format!(
+        "(mkfunc {} {} {})",
+        f.address(),
+        coq_cfg(f.control_flow_graph(), None, it),
+        coq_optz(f.index().map(|v| v as u64))
+    )
+}
+pub fn coq_program(p: &Program, it: &mut Interner) -> String {
+    let fs: Vec<String> = p
+        .functions_map()
+        .iter()
+        .map(|(k, f)| format!("({}, {})", k, coq_function(f, it)))
+        .collect();
+    format!("(mkprog {})", coq_list(fs))
+}
+/// il::FunctionLocation -> floc
+pub fn coq_floc(l: &il::FunctionLocation) -> String {
+    match l {
+        il::FunctionLocation::Instruction(b, i) => format!("(LInstr {} {})", b, i),
+        il::FunctionLocation::Edge(h, t) => format!("(LEdge {} {})", h, t),
+        il::FunctionLocation::EmptyBlock(b) => format!("(LEmpty {})", b),
+    }
+}
+pub fn coq_ref_floc(l: &il::RefFunctionLocation) -> String {
+    coq_floc(&l.clone().into())
+}
+pub fn coq_ploc(l: &il::ProgramLocation) -> String {
+    let fi = format!("{}", l).split(':').next().map(|_| ()).map(|_| ());
+    let _ = fi;
+    // function_index is private; recover it through Display ("0x<idx>:<loc>" or "<loc>")
+    let s = format!("{}", l);
+    let inner = format!("{}", l.function_location());
+    let fidx = if s.len() > inner.len() {
+        let pre = &s[..s.len() - inner.len() - 1];
+        u64::from_str_radix(pre.trim_start_matches("0x"), 16).ok()
+    } else {
+        None
+    };
+    format!("(mkploc {} {})", coq_optz(fidx), coq_floc(l.function_location()))
+}
+
+// ---------------------------------------------------------------- random IL functions
+#[derive(Clone)]
+pub struct GenOpts {
+    /// scalar pool: (name, bits)
+    pub scalars: Vec<(String, usize)>,
+    pub min_blocks: u64,
+    pub max_blocks: u64,
+    pub max_instrs: u64,
+    pub mem: bool,        // loads / stores
+    pub intrinsics: bool, // intrinsic operations (declared and undeclared effects)
+    pub branches: bool,   // indirect Branch operations
+    pub empty_blocks: bool,
+    pub loops: bool,
+    pub unreachable: bool, // blocks without a path from the entry
+    pub addr_bits: usize,  // width of memory addresses
+    pub expr_depth: u32,
+    pub addresses: bool, // give instructions addresses
+    pub div: bool,       // allow division operators
+}
+impl Default for GenOpts {
+    fn default() -> Self {
+        GenOpts {
+            scalars: vec![("a".into(), 32), ("b".into(), 32), ("c".into(), 32), ("x".into(), 8), ("f".into(), 1), ("q".into(), 64)],
+            min_blocks: 1,
+            max_blocks: 7,
+            max_instrs: 4,
+            mem: true,
+            intrinsics: false,
+            branches: false,
+            empty_blocks: true,
+            loops: true,
+            unreachable: false,
+            addr_bits: 32,
+            expr_depth: 3,
+            addresses: true,
+            div: false,
+        }
+    }
+}
+
+pub fn small_const(r: &mut Rng, bits: usize) -> Expression {
+    let v: u64 = match r.below(8) {
+        0 => 0,
+        1 => 1,
+        2 => u64::MAX,
+        3 => 1u64.checked_shl(bits.saturating_sub(1) as u32).unwrap_or(0),
+        4 => r.below(16),
+        _ => r.next(),
+    };
+    il::expr_const(v, bits)
+}
+
+/// well-sorted random expression of width `bits` over the scalar pool
+pub fn gen_expr(r: &mut Rng, o: &GenOpts, bits: usize, depth: u32) -> Expression {
+    if depth == 0 || r.chance(1, 4) {
+        let cands: Vec<&(String, usize)> = o.scalars.iter().filter(|s| s.1 == bits).collect();
+        if !cands.is_empty() && r.chance(2, 3) {
+            let s = r.pick(&cands);
+            return il::expr_scalar(s.0.clone(), s.1);
+        }
+        return small_const(r, bits);
+    }
+    let d = depth - 1;
+    let e = match r.below(14) {
+        0..=5 => {
+            let mut ops = vec!["add", "sub", "mul", "and", "or", "xor", "shl", "shr", "ashr"];
+            if o.div {
+                ops.extend(["divu", "modu", "divs", "mods"]);
+            }
+            let op = *r.pick(&ops);
+            let (a, b) = (gen_expr(r, o, bits, d), gen_expr(r, o, bits, d));
+            match op {
+                "add" => Expression::add(a, b),
+                "sub" => Expression::sub(a, b),
+                "mul" => Expression::mul(a, b),
+                "and" => Expression::and(a, b),
+                "or" => Expression::or(a, b),
+                "xor" => Expression::xor(a, b),
+                "shl" => Expression::shl(a, b),
+                "shr" => Expression::shr(a, b),
+                "ashr" => Expression::ashr(a, b),
+                "divu" => Expression::divu(a, b),
+                "modu" => Expression::modu(a, b),
+                "divs" => Expression::divs(a, b),
+                _ => Expression::mods(a, b),
+            }
+        }
+        6 | 7 if bits == 1 => {
+            let w = o.scalars[r.below(o.scalars.len() as u64) as usize].1;
+            let (a, b) = (gen_expr(r, o, w, d), gen_expr(r, o, w, d));
+            match r.below(4) {
+                0 => Expression::cmpeq(a, b),
+                1 => Expression::cmpneq(a, b),
+                2 => Expression::cmplts(a, b),
+                _ => Expression::cmpltu(a, b),
+            }
+        }
+        8 if bits > 1 => {
+            let narrower: Vec<usize> = o.scalars.iter().map(|s| s.1).filter(|w| *w < bits).collect();
+            if narrower.is_empty() {
+                Ok(small_const(r, bits))
+            } else {
+                let w = *r.pick(&narrower);
+                let a = gen_expr(r, o, w, d);
+                if r.chance(1, 2) { Expression::zext(bits, a) } else { Expression::sext(bits, a) }
+            }
+        }
+        9 => {
+            let wider: Vec<usize> = o.scalars.iter().map(|s| s.1).filter(|w| *w > bits).collect();
+            if wider.is_empty() {
+                Ok(small_const(r, bits))
+            } else {
+                let w = *r.pick(&wider);
+                Expression::trun(bits, gen_expr(r, o, w, d))
+            }
+        }
+        10 => {
+            let c = gen_expr(r, o, 1, d);
+            Expression::ite(c, gen_expr(r, o, bits, d), gen_expr(r, o, bits, d))
+        }
+        _ => Ok(gen_expr(r, o, bits, 0)),
+    };
+    e.expect("generator builds well-sorted expressions")
+}
+
+pub fn gen_cond(r: &mut Rng, o: &GenOpts) -> Expression {
+    gen_expr(r, o, 1, o.expr_depth.min(2).max(1))
+}
+
+fn push_op(r: &mut Rng, o: &GenOpts, b: &mut Block) {
+    let pick = r.below(100);
+    let s = o.scalars[r.below(o.scalars.len() as u64) as usize].clone();
+    if o.mem && pick < 12 {
+        let w = *r.pick(&[8usize, 16, 32, 64]);
+        let src = gen_expr(r, o, w, 1.min(o.expr_depth));
+        let src = if o.scalars.iter().any(|x| x.1 == w) { src } else { small_const(r, w) };
+        b.store(gen_addr(r, o), src);
+    } else if o.mem && pick < 24 {
+        let mem_scalars: Vec<&(String, usize)> = o.scalars.iter().filter(|x| x.1 % 8 == 0 && x.1 > 0).collect();
+        if mem_scalars.is_empty() {
+            b.nop();
+        } else {
+            let d = r.pick(&mem_scalars);
+            b.load(il::scalar(d.0.clone(), d.1), gen_addr(r, o));
+        }
+    } else if o.intrinsics && pick < 30 {
+        let declared = r.chance(1, 2);
+        let w = il::expr_scalar(s.0.clone(), s.1);
+        let rd = o.scalars[r.below(o.scalars.len() as u64) as usize].clone();
+        let intr = Intrinsic::new(
+            if declared { "declared" } else { "syscall" },
+            "intrinsic",
+            vec![],
+            if declared { Some(vec![w]) } else { None },
+            if declared { Some(vec![il::expr_scalar(rd.0, rd.1)]) } else { None },
+            vec![0x0f, 0x05],
+        );
+        b.intrinsic(intr);
+    } else if o.branches && pick < 33 {
+        b.branch(gen_expr(r, o, o.addr_bits, 1));
+    } else if pick < 38 {
+        b.nop();
+    } else {
+        b.assign(il::scalar(s.0.clone(), s.1), gen_expr(r, o, s.1, o.expr_depth));
+    }
+}
+
+/// addresses stay in a small arena so that loads hit earlier stores
+pub fn gen_addr(r: &mut Rng, o: &GenOpts) -> Expression {
+    let base = il::expr_const(0x1000 + r.below(24), o.addr_bits);
+    let cands: Vec<&(String, usize)> = o.scalars.iter().filter(|s| s.1 == o.addr_bits).collect();
+    if !cands.is_empty() && r.chance(1, 4) {
+        let s = r.pick(&cands);
+        Expression::add(
+            base,
+            Expression::and(il::expr_scalar(s.0.clone(), s.1), il::expr_const(7, o.addr_bits)).unwrap(),
+        )
+        .unwrap()
+    } else {
+        base
+    }
+}
+
+/// Random function. Guards out of every block are mutually exclusive and exhaustive
+/// (one unconditional edge, a complementary pair, or a three-way unsigned-range fan).
+pub fn gen_function(r: &mut Rng, o: &GenOpts, address: u64) -> Function {
+    let nb = r.range(o.min_blocks, o.max_blocks) as usize;
+    let mut cfg = ControlFlowGraph::new();
+    let mut addr = address;
+    for _ in 0..nb {
+        let b = cfg.new_block().unwrap();
+        let n = if o.empty_blocks && r.chance(1, 6) { 0 } else { r.range(1, o.max_instrs.max(1)) };
+        for _ in 0..n {
+            push_op(r, o, b);
+        }
+        if o.addresses {
+            for i in b.instructions_mut() {
+                i.set_address(Some(addr));
+                if r.chance(3, 4) {
+                    addr += 4;
+                }
+            }
+        }
+    }
+    let reach_n = if o.unreachable && nb > 2 && r.chance(1, 3) { nb - 1 - r.below(2) as usize } else { nb };
+    let reach_n = reach_n.max(1);
+    for h in 0..nb {
+        // targets: forward edges always allowed; backward / self edges only with loops
+        let mut tgt = |r: &mut Rng| -> usize {
+            let hi = if h < reach_n { reach_n } else { nb };
+            if o.loops && r.chance(1, 4) {
+                r.below(hi as u64) as usize
+            } else if h + 1 < hi {
+                r.range(h as u64 + 1, hi as u64 - 1) as usize
+            } else {
+                usize::MAX
+            }
+        };
+        let shape = r.below(10);
+        let (t1, t2, t3) = (tgt(r), tgt(r), tgt(r));
+        if t1 == usize::MAX {
+            continue; // exit block
+        }
+        if shape < 4 || t2 == usize::MAX || t2 == t1 {
+            if shape == 0 && nb > 1 && h + 1 == reach_n {
+                continue;
+            }
+            cfg.unconditional_edge(h, t1).unwrap();
+        } else if shape < 8 || t3 == usize::MAX || t3 == t1 || t3 == t2 {
+            let c = gen_cond(r, o);
+            let nc = Expression::cmpeq(c.clone(), il::expr_const(0, 1)).unwrap();
+            cfg.conditional_edge(h, t1, c).unwrap();
+            cfg.conditional_edge(h, t2, nc).unwrap();
+        } else {
+            // three-way fan on an unsigned value: x < k1 ; k1 <= x < k2 ; k2 <= x
+            let s = o.scalars[r.below(o.scalars.len() as u64) as usize].clone();
+            let (x, w) = (il::expr_scalar(s.0.clone(), s.1), s.1);
+            if w < 2 {
+                cfg.unconditional_edge(h, t1).unwrap();
+                continue;
+            }
+            let k1 = il::expr_const(1, w);
+            let k2 = il::expr_const(3, w);
+            let lt1 = Expression::cmpltu(x.clone(), k1).unwrap();
+            let lt2 = Expression::cmpltu(x.clone(), k2).unwrap();
+            let not = |e: Expression| Expression::cmpeq(e, il::expr_const(0, 1)).unwrap();
+            cfg.conditional_edge(h, t1, lt1.clone()).unwrap();
+            cfg.conditional_edge(h, t2, Expression::and(not(lt1), lt2.clone()).unwrap()).unwrap();
+            cfg.conditional_edge(h, t3, not(lt2)).unwrap();
+        }
+    }
+    cfg.set_entry(0).unwrap();
+    cfg.set_exit(nb - 1).unwrap();
+    Function::new(address, cfg)
+}
+
+/// a program holding the given functions (indices assigned by add_function)
+pub fn program_of(fs: Vec<Function>) -> Program {
+    let mut p = Program::new();
+    for f in fs {
+        p.add_function(f);
+    }
+    p
+}
